@@ -400,8 +400,11 @@ def observables_check(ctx, psi, ops, case, where, v=None):
                      f"{got[:6].tolist()} vs {ref[:6].tolist()}", **key0)
         for alpha, ent in ((1, ent1), (2, ent2)):
             e_ref = ref_entropy(ref ** 2, alpha)
-            _obs("entropy", abs(float(ent[k]) - e_ref))
-            if abs(float(ent[k]) - e_ref) > 1e-8:
+            # documented cutoff of yastn.entropy: probabilities below tol=1e-12 are dropped; allow for their contribution
+            tiny = (ref ** 2)[(ref ** 2 > 0) & (ref ** 2 < 2e-12)]
+            slack = 2 * float(np.sum(-tiny * np.log2(tiny))) if alpha == 1 else 0.0
+            _obs("entropy", max(abs(float(ent[k]) - e_ref) - slack, 0.0))
+            if abs(float(ent[k]) - e_ref) > 1e-8 + slack:
                 ctx.fail("oracle", "c08:entropy", f"{where}: entropy(alpha={alpha}) across cut {k} is {float(ent[k])!r}, dense {e_ref!r}", **key0)
         if bd is not None:
             rank = int(np.sum(ref > 1e-9))
